@@ -243,6 +243,7 @@ type c09World struct {
 	cids   []netip.Addr // cluster ids in use on this router
 	logger *slog.Logger
 	nextID int
+	nLearned, nLocalAs int
 }
 
 func c09IP(a, b, c, d int) netip.Addr {
@@ -286,8 +287,19 @@ func (w *c09World) newPeer(t *testing.T, i int) *c09Peer {
 			n.Config.PeerAs = w.g.Confederation.Config.MemberAsList[r.intn(2)]
 		}
 	}
-	if r.chance(10) {
-		n.Config.LocalAs = uint32(r.pick(100, 65010, int(n.Config.PeerAs)))
+	// per-neighbor local-as override (differs from the global AS; sometimes equal to the peer's AS,
+	// which makes the session internal)
+	if r.chance(20) {
+		n.Config.LocalAs = uint32(r.pick(101, 65010, 65010, int(n.Config.PeerAs)))
+	}
+	// the two ways the code learns the peer's AS and the session type: configured, or - peer-as not
+	// configured (unnumbered / interface / "accept the AS from the OPEN" neighbors) - learned when the
+	// session is established (fsm.stateChange(ESTABLISHED): State.PeerAs from the OPEN, State.PeerType
+	// from comparing it with the local AS).  Config.PeerAs stays 0 for those.
+	remoteAS := n.Config.PeerAs
+	learned := r.chance(25)
+	if learned {
+		n.Config.PeerAs = 0
 	}
 	policy := table.NewRoutingPolicy(w.logger)
 	// no export policy; default accept for the global table and for this peer's own table
@@ -325,6 +337,13 @@ func (w *c09World) newPeer(t *testing.T, i int) *c09Peer {
 			t.Fatal(err)
 		}
 	}
+	if learned {
+		n.State.PeerAs = remoteAS
+		n.State.PeerType = oc.PEER_TYPE_EXTERNAL
+		if n.Config.LocalAs == remoteAS {
+			n.State.PeerType = oc.PEER_TYPE_INTERNAL
+		}
+	}
 	// router id of the remote speaker: mostly its own, sometimes shared with the previous peer
 	// (parallel sessions to one router), rarely not yet known
 	switch {
@@ -354,6 +373,12 @@ func (w *c09World) newPeer(t *testing.T, i int) *c09Peer {
 	cp.info = table.NewPeerInfo(w.g, n, n.State.PeerAs, n.Config.LocalAs, n.State.RemoteRouterId, w.g.Config.RouterId, addr, local)
 	p.peerInfo.Store(cp.info)
 	cp.peer = p
+	switch {
+	case learned:
+		w.nLearned++
+	case n.Config.LocalAs != w.g.Config.As && !(w.g.Confederation.Config.Enabled && n.Config.LocalAs == w.g.Confederation.Config.Identifier):
+		w.nLocalAs++
+	}
 	if n.RouteReflector.Config.RouteReflectorClient {
 		w.cids = append(w.cids, n.RouteReflector.State.RouteReflectorClusterId)
 	}
@@ -595,7 +620,9 @@ func c09ExportOracle(w *c09World, tp *c09Peer, rt *c09Route, old *c09Route, out 
 		if lp == nil {
 			bad = append(bad, "ibgp:local-pref-missing")
 		}
-		if in := rt.path.GetAsPath(); in != nil && outAs != in {
+		// same content (replace-peer-as on a session that turned out internal rebuilds the attribute
+		// with peer AS = local AS, i.e. unchanged)
+		if in := rt.path.GetAsPath(); in != nil && (outAs == nil || c09AttrR(outAs) != c09AttrR(in)) {
 			bad = append(bad, "ibgp:as-path-changed")
 		}
 		if !(local && rt.path.GetNexthop().IsUnspecified()) && out.GetNexthop() != rt.path.GetNexthop() {
@@ -615,6 +642,56 @@ func c09ExportOracle(w *c09World, tp *c09Peer, rt *c09Route, old *c09Route, out 
 		}
 	}
 	return bad
+}
+
+// replace-peer-as restated as a metamorphosis (no model, no knowledge of where the code reads the
+// peer's AS from): with replace-peer-as on, a stored route must be treated exactly like the same
+// route with every occurrence of the peer's AS in its AS_PATH already replaced by the session's
+// local AS.
+func c09ReplacePeerAsOracle(s *BgpServer, tp *c09Peer, rt *c09Route, oldPath *table.Path, out *table.Path, o *vOut) string {
+	c := tp.conf
+	if !c.AsPathOptions.State.ReplacePeerAs || rt.path.IsWithdraw {
+		return ""
+	}
+	asp := rt.path.GetAsPath()
+	peerAS := c.State.PeerAs
+	if asp == nil || !slices.Contains(append(c09AllAS(asp, false), c09AllAS(asp, true)...), peerAS) {
+		return ""
+	}
+	o.stat("replace_peer_as_applies", 1)
+	params := make([]bgp.AsPathParamInterface, 0, len(asp.Value))
+	for _, p := range asp.Value {
+		as := slices.Clone(p.GetAS())
+		for i := range as {
+			if as[i] == peerAS {
+				as[i] = c.Config.LocalAs
+			}
+		}
+		params = append(params, bgp.NewAs4PathParam(p.GetType(), as))
+	}
+	attrs2 := make([]bgp.PathAttributeInterface, 0, len(rt.attrs))
+	for _, a := range rt.attrs {
+		if a.GetType() == bgp.BGP_ATTR_TYPE_AS_PATH {
+			attrs2 = append(attrs2, bgp.NewPathAttributeAsPath(params))
+		} else {
+			attrs2 = append(attrs2, a)
+		}
+	}
+	p2 := table.NewPath(rt.path.GetFamily(), rt.path.GetSource(), bgp.PathNLRI{NLRI: rt.nlri}, false, attrs2, rt.path.GetTimestamp(), false)
+	kind := func(x *table.Path) string {
+		switch {
+		case x == nil:
+			return "nothing"
+		case x.IsWithdraw:
+			return "withdraw"
+		}
+		return "update " + c09AttrsR(x.GetPathAttrs())
+	}
+	out2 := s.filterpath(tp.peer, p2, oldPath)
+	if kind(out) != kind(out2) {
+		return "replace-peer-as:peer-as-not-replaced"
+	}
+	return ""
 }
 
 func c09Guard(f func() string) (s string) {
@@ -719,6 +796,9 @@ func TestVerifC09Server(t *testing.T) {
 	}
 	for wi := 0; wi < nWorlds; wi++ {
 		w := c09NewWorld(t, r, logger)
+		o.stat("peers_total", len(w.peers))
+		o.stat("peers_as_learned_from_open", w.nLearned)
+		o.stat("peers_local_as_override", w.nLocalAs)
 		o.op("%s", c09GlobalDef(w.g))
 		routes := make([]*c09Route, 0, 12)
 		for i := 0; i < 10; i++ {
@@ -789,6 +869,13 @@ func TestVerifC09Server(t *testing.T) {
 				}
 				for _, b := range c09ExportOracle(w, tp, rt, old, out, o) {
 					o.fail(b, map[string]any{"global": c09GlobalDef(w.g), "peer": tp.def(rt.path.GetFamily()), "path": def, "old": snapOld, "out": eres})
+				}
+				if b := c09ReplacePeerAsOracle(s, tp, rt, oldPath, out, o); b != "" {
+					o.fail(b, map[string]any{"global": c09GlobalDef(w.g), "peer": tp.def(rt.path.GetFamily()), "path": def, "old": snapOld, "out": eres,
+						"config_peer_as": tp.conf.Config.PeerAs, "state_peer_as": tp.conf.State.PeerAs})
+				}
+				if tp.conf.Config.PeerAs == 0 {
+					o.stat("export_to_peer_with_as_learned_from_open", 1)
 				}
 				if now := c09Snap(rt.path); now != snapNew {
 					o.fail("stored-route-altered:export", map[string]any{"before": snapNew, "after": now, "peer": tp.def(rt.path.GetFamily())})
